@@ -212,6 +212,12 @@ func c16(c *Ctx) {
 		r.Fail("R2.discharge", k, p.Pos(core.InstrPos(l.Exit.Instrs[len(l.Exit.Instrs)-1])),
 			"a transfer slot can reach this exit without Release or hand-off ("+l.Start+"): "+p.PathString(l.Path))
 	}
+	for _, e := range ts.Early {
+		r.Fail("R2.release-while-in-use", core.FuncName(e.Fn), p.Pos(core.InstrPos(e.At)), "the slot is released by this function although it was handed to a goroutine that is still transferring with it: the limit on simultaneous transfers is not enforced")
+	}
+	if len(ts.Early) == 0 {
+		r.Pass("R2.release-while-in-use", "hand-offs", "-", "no function releases a slot after handing it to a goroutine")
+	}
 	// every function that was analysed as an owner and has no leak is a discharged obligation
 	leaky := map[*ssa.Function]bool{}
 	for _, l := range ts.Leaks {
